@@ -226,11 +226,16 @@ fn classify_a(bk: usize, style: Style, hist: &[Rev], container_base: bool) -> Op
 const TAILS: [&[u8]; 8] = [b"", b"\n", b"\r\n", b"\r", b"\n\n", b" \n", b"\n  ", b"\r\n\r\n"];
 
 fn check_b(bk: usize, table: bool, hist: &[Rev]) -> Result<(), String> {
-    check_b_tail(bk, table, hist, 0)
+    check_b_tail(bk, table, hist, 0, 0)
 }
 
-fn check_b_tail(bk: usize, table: bool, hist: &[Rev], tail: usize) -> Result<(), String> {
-    let (objects, trailer, designated) = base(bk);
+/// `pad`: size of an additional stream object in the base file (offsets of the appended revisions then need
+/// more digits / bytes: 2^24 and beyond)
+fn check_b_tail(bk: usize, table: bool, hist: &[Rev], tail: usize, pad: usize) -> Result<(), String> {
+    let (mut objects, trailer, designated) = base(bk);
+    if pad > 0 {
+        objects.insert((900, 0), Object::Stream(Stream::new(dict(vec![("Pad", Object::Integer(pad as i64))]), vec![b'p'; pad])));
+    }
     let mut doc = Document::with_version("1.6");
     doc.objects = objects.clone();
     doc.trailer = trailer.clone();
@@ -506,7 +511,7 @@ fn main() {
         } else if c["producer"].as_str() == Some("A") {
             check_a_classes(bk, if table { Style::Table } else { Style::Stream }, &hist, c["container_base"].as_bool().unwrap_or(false), true, c["member_order"].as_u64().unwrap_or(0) as usize, c["xref_class"].as_u64().map(|x| x as usize)).err().map(|e| e.1)
         } else {
-            check_b_tail(bk, table, &hist, c["tail"].as_u64().unwrap_or(0) as usize).err()
+            check_b_tail(bk, table, &hist, c["tail"].as_u64().unwrap_or(0) as usize, c["pad"].as_u64().unwrap_or(0) as usize).err()
         };
         match &res {
             Some(m) => println!("observed: {}", m),
@@ -518,7 +523,7 @@ fn main() {
         "all histories of <= k revisions (k=2 quick, 3 thorough) over 3 base documents x revision menu {8 subsets of 3 designated objects to \
          replace} x {0,1,2 added objects} x {plain, object stream} (stream files) x {xref table, xref stream}; producer A = reference writer \
          (every history prefix is itself a node of the tree and is loaded as a complete file; histories of <= 1 revision and every 8th longer one also with each of 15 cross-reference spelling classes - W widths incl. an absent type field, Index forms, filters, subsection forms - switched for all revisions; a replacement may be the null object), producer B = IncrementalDocument replay with reload \
-         after every step, also on base files with 7 kinds of white space after the final %%EOF and with 127..130 (to 300 in thorough) appended revisions; a state is a history prefix, a transition appends one revision; non-trivial = at least one object redefined",
+         after every step, also on base files with 7 kinds of white space after the final %%EOF and with 127..130 (to 300 in thorough) appended revisions, and on base files of 70 KB and ~16 MiB (offsets beyond 2^16 and 2^24); a state is a history prefix, a transition appends one revision; non-trivial = at least one object redefined",
     );
     run.assume("no revision frees an object; no hybrid-reference files; the schedule is pinned (merge-order hook in Sorted mode), schedule independence is C08's subject");
     let k = if run.thorough { 3 } else { 2 };
@@ -636,12 +641,12 @@ fn main() {
     // (the Prev chain as a quantity: 1, 2, 127 .. 130, 300 appended revisions)
     {
         let one = |mask: u8, add: u8| Rev { mask, add, objstm: false };
-        let mut cases: Vec<(usize, bool, Vec<Rev>, usize)> = vec![];
+        let mut cases: Vec<(usize, bool, Vec<Rev>, usize, usize)> = vec![];
         for bk in 0..3usize {
             for table in [true, false] {
                 for tail in 1..TAILS.len() {
-                    cases.push((bk, table, vec![one(1, 0), one(2, 1)], tail));
-                    cases.push((bk, table, vec![one(5, 1)], tail));
+                    cases.push((bk, table, vec![one(1, 0), one(2, 1)], tail, 0));
+                    cases.push((bk, table, vec![one(5, 1)], tail, 0));
                 }
             }
         }
@@ -649,20 +654,27 @@ fn main() {
         for (i, d) in depths.iter().enumerate() {
             // every revision replaces one of the designated objects in turn; nothing re-lists the other base objects
             let h: Vec<Rev> = (0..*d).map(|j| one(1 << (j % 3), (j % 5 == 0) as u8)).collect();
-            cases.push((i % 3, i % 2 == 0, h, 0));
+            cases.push((i % 3, i % 2 == 0, h, 0, 0));
+        }
+        // base files beyond 64 KiB and 16 MiB: the offsets of the appended revisions need 3 and 4 bytes in a
+        // cross-reference stream and 6 / 9 digits in a table
+        for (bk, pad) in [(0usize, 70_000usize), (1, 16_800_000), (2, 16_777_216 - 600)] {
+            for table in [true, false] {
+                cases.push((bk, table, vec![one(1, 0), one(6, 1)], 0, pad));
+            }
         }
         run.add("producer_b_tail_and_depth_cases", cases.len() as u64);
         run.add_states(cases.iter().map(|c| c.2.len() as u64).sum());
         run.add_transitions(cases.iter().map(|c| c.2.len() as u64).sum());
         util::par_for(cases.len(), |i| {
-            let (bk, table, h, tail) = &cases[i];
+            let (bk, table, h, tail, pad) = &cases[i];
             run.eval(h.len() as u64);
             run.nontrivial(1);
-            match check_b_tail(*bk, *table, h, *tail) {
+            match check_b_tail(*bk, *table, h, *tail, *pad) {
                 Ok(()) => run.add_traces(1),
                 Err(m) => run.fail(
                     None,
-                    json!({"producer": "B", "base": bk, "style": if *table {"table"} else {"stream"}, "history": hist_json(h), "tail": tail}),
+                    json!({"producer": "B", "base": bk, "style": if *table {"table"} else {"stream"}, "history": hist_json(h), "tail": tail, "pad": pad}),
                     &m,
                     "incremental save keeps the old bytes, appends only changed objects with a section pointing back, leaves the previous view untouched, reloads to the model",
                 ),
